@@ -5,6 +5,7 @@
 set -eu
 cd "$(dirname "$0")"
 . ./env.sh
+VERIF_BIN=${VERIF_BIN_DIR:-.build/bin}; case "$VERIF_BIN" in /*) ;; *) VERIF_BIN=$VERIF_ROOT/$VERIF_BIN;; esac; mkdir -p "$VERIF_BIN"
 v=$1
 mkdir -p .build/bin .build/tmp .build/mod
 # the go command may rewrite go.mod under -mod=mod: let it work on a copy so that /repo stays untouched
@@ -17,7 +18,7 @@ if [ -x ./build-e1.sh ] && ./build-e1.sh --is-variant "$v"; then
 fi
 if [ -d "h/cmd/$v" ]; then
   python3 tools/mkoverlay.py .build/mod/ov$$.json ${VERIF_EXTRA_OVERLAY:+--merge "$VERIF_EXTRA_OVERLAY"}
-  (cd "$REPO" && go build -modfile="$VERIF_MODFILE" -tags verif -overlay "$VERIF_ROOT/.build/mod/ov$$.json" -o "$VERIF_ROOT/.build/bin/$v" ./internal/verifh/cmd/$v)
+  (cd "$REPO" && go build -modfile="$VERIF_MODFILE" -tags verif -overlay "$VERIF_ROOT/.build/mod/ov$$.json" -o "$VERIF_BIN/$v" ./internal/verifh/cmd/$v)
   exit $?
 fi
 echo "unknown variant $v" >&2; exit 2
